@@ -9,6 +9,8 @@ from ..r_alias import rule_no_stale_alias, rule_fix_stereo_exit, rule_row_order
 from ..r_hygiene import rule_hygiene as _rule_hygiene
 from ..r_alias import rule_retry_flush as _rule_retry_flush
 from ..r_stereo import rule_pair_key_symmetry as _rule_pair_key
+from ..r_codebooks import rule_allene_reference_choice as _rule_allene_ref
+from ..r_rdkit import rule_import_revalidates as _rule_import_reval
 
 LEVEL = 'other'
 
@@ -32,3 +34,5 @@ def run(ck, repo):
     _rule_hygiene(ck, repo, 'C12.H-dataflow-hygiene', 'C12')
     _rule_retry_flush(ck, repo, 'C12.D5-retry-flush', ['chython.files.daylight.smiles', 'chython.files.mdl.stereo', 'chython.files.libinchi.wrapper'], 3)
     _rule_pair_key(ck, repo, 'C12.D6-pair-key-symmetry')
+    _rule_allene_ref(ck, repo, 'C12.D3-allene-reference')
+    _rule_import_reval(ck, repo, 'C12.D4-import-revalidates')
